@@ -1,5 +1,6 @@
 (* C05 -- failures are contained and reported.
-   PART served by the plan / build-loop model (Engine/PlanDefs.v).  Quantification as in
+   PART served by the plan / build-loop model (Engine/PlanDefs.v, dyndep loads during the build
+   included).  Quantification as in
    Properties_C04.v: all graphs with an acyclic producer relation, all -j/-k/pools/jobserver sizes, all
    scan snapshots satisfying [wf_snap], all accepted event lists (all completion orders, all sets of
    failing commands with any exit code other than 130, which the loop treats as an interrupt).
@@ -7,20 +8,29 @@
    not in this model. *)
 From NinjaV Require Import Base.Bytes Engine.PlanDefs Engine.PlanProofs.
 
-(* After a command failed, nothing that depends on it -- through any chain of inputs -- is started
-   (and the failed command itself is not started again). *)
-Theorem C05_no_dependent_started : forall g cfg rank, wf_graph g rank -> 0 < c_k cfg -> 0 < c_j cfg ->
-  forall prio sn evs1 e c pr evs2 s, wf_snap g sn ->
-  run g cfg prio sn (evs1 ++ EvFinish e c pr :: evs2) = Some s -> c <> 0 ->
-  forall d pr', In (EvStart d pr') evs2 -> ~ depends g d e /\ d <> e.
+(* After a command failed, nothing that depends on it -- through any chain of inputs, in the graph as it
+   is known when that Start happens (dyndep files loaded so far included) -- is started, and the failed
+   command itself is not started again. *)
+Theorem C05_no_dependent_started : forall g cfg loads rank, wf_graph g rank -> 0 < c_k cfg -> 0 < c_j cfg ->
+  forall prio sn evs1 e c pr a d pr' s3 s4, wf_snap g sn ->
+  run g cfg loads prio sn (evs1 ++ EvFinish e c pr :: a) = Some s3 -> c <> 0 ->
+  step g cfg loads s3 (EvStart d pr') = Some s4 -> ~ depends g (s_plan s3) d e /\ d <> e.
 Proof. exact no_dependent_started. Qed.
 Print Assumptions C05_no_dependent_started.
 
+(* the same over whole traces, for the dependencies that are in the graph from the start *)
+Theorem C05_no_dependent_started0 : forall g cfg loads rank, wf_graph g rank -> 0 < c_k cfg -> 0 < c_j cfg ->
+  forall prio sn evs1 e c pr evs2 s, wf_snap g sn ->
+  run g cfg loads prio sn (evs1 ++ EvFinish e c pr :: evs2) = Some s -> c <> 0 ->
+  forall d pr', In (EvStart d pr') evs2 -> ~ depends0 g d e /\ d <> e.
+Proof. exact no_dependent_started0. Qed.
+Print Assumptions C05_no_dependent_started0.
+
 (* If some command failed, Build() does not return success: the exit status is non-zero, and on
    every return other than "interrupted by user" it is the status tracked by SetFailureCode ... *)
-Theorem C05_exit_code : forall g cfg rank, wf_graph g rank -> 0 < c_k cfg -> 0 < c_j cfg ->
+Theorem C05_exit_code : forall g cfg loads rank, wf_graph g rank -> 0 < c_k cfg -> 0 < c_j cfg ->
   forall prio sn evs code m s, wf_snap g sn ->
-  run g cfg prio sn (evs ++ [EvExit code m]) = Some s ->
+  run g cfg loads prio sn (evs ++ [EvExit code m]) = Some s ->
   (exists e c pr, In (EvFinish e c pr) evs /\ c <> 0) ->
   code <> 0 /\ (m <> MInterrupted -> code = exit_track 0 evs /\ m <> MSuccess).
 Proof. exact exit_code_of_failure. Qed.
@@ -34,57 +44,59 @@ Proof. exact exit_track_last. Qed.
 Print Assumptions C05_exit_code_is_last_failure.
 
 (* Once failures_allowed has reached 0 no Start is accepted ... *)
-Theorem C05_budget : forall g cfg s e prio, s_fa s = 0 -> step g cfg s (EvStart e prio) = None.
+Theorem C05_budget : forall g cfg loads s e prio, s_fa s = 0 -> step g cfg loads s (EvStart e prio) = None.
 Proof. exact no_start_without_budget. Qed.
 Print Assumptions C05_budget.
 
 (* ... yet, whatever the budget, the loop can still wait for the running commands (when it cannot
    start anything) and every completion of a running command -- with any status other than 130 --
    is accepted, i.e. handled by FinishCommand/EdgeFinished without tripping an assert or a negative
-   counter (and, by C04_plan_inv, a successful one updates the plan). *)
-Theorem C05_drain_wait : forall g cfg rank, wf_graph g rank -> 0 < c_k cfg -> 0 < c_j cfg ->
-  forall s, reachable g cfg s -> s_phase s = PhBuild -> s_waiting s = false ->
-  s_running s <> [] -> can_start cfg s = false -> exists s', step g cfg s EvWait = Some s'.
+   counter (and, by C04_plan_inv, a successful one updates the plan).  The second statement is for
+   builds without a pending dyndep file: with one, acceptance also depends on what the trace says the
+   re-scan decided ([apply_load]'s guards). *)
+Theorem C05_drain_wait : forall g cfg loads rank, wf_graph g rank -> 0 < c_k cfg -> 0 < c_j cfg ->
+  forall s, reachable g cfg loads s -> s_phase s = PhBuild -> s_waiting s = false ->
+  s_running s <> [] -> can_start cfg s = false -> exists s', step g cfg loads s EvWait = Some s'.
 Proof. exact wait_enabled. Qed.
 Print Assumptions C05_drain_wait.
 
-Theorem C05_drain_finish : forall g cfg rank, wf_graph g rank -> 0 < c_k cfg -> 0 < c_j cfg ->
-  forall s e code prio, reachable g cfg s -> s_phase s = PhBuild -> s_waiting s = true ->
+Theorem C05_drain_finish : forall g cfg loads rank, wf_graph g rank -> 0 < c_k cfg -> 0 < c_j cfg ->
+  forall s e code prio, no_pending_dyndep g -> reachable g cfg loads s -> s_phase s = PhBuild -> s_waiting s = true ->
   In e (s_running s) -> code <> exit_interrupted ->
-  exists s', step g cfg s (EvFinish e code prio) = Some s'.
+  exists s', step g cfg loads s (EvFinish e code prio) = Some s'.
 Proof. exact finish_enabled. Qed.
 Print Assumptions C05_drain_finish.
 
 (* On every return of Build() other than the interrupt, no command is left running. *)
-Theorem C05_reaped : forall g cfg rank, wf_graph g rank -> 0 < c_k cfg -> 0 < c_j cfg ->
-  forall s code m s', reachable g cfg s -> step g cfg s (EvExit code m) = Some s' ->
+Theorem C05_reaped : forall g cfg loads rank, wf_graph g rank -> 0 < c_k cfg -> 0 < c_j cfg ->
+  forall s code m s', reachable g cfg loads s -> step g cfg loads s (EvExit code m) = Some s' ->
   m <> MInterrupted -> s_running s = [] /\ s_running s' = [].
 Proof. exact exit_reaped. Qed.
 Print Assumptions C05_reaped.
 
 (* ---- non-vacuity: command 0 of the example fails with status 7 ---- *)
 Example C05_no_dependent_started_nonvacuous :
-  is_some (run ex_graph ex_cfg ex_prio ex_snap
+  is_some (run ex_graph ex_cfg no_loads ex_prio ex_snap
              ([EvStart 0 ex_prio; EvWait] ++ EvFinish 0 7 ex_prio :: [EvExit 7 MSubcommandFailed])) = true /\
-  7 <> 0 /\ depends ex_graph 2 0 /\ depends ex_graph 3 0.
+  7 <> 0 /\ depends0 ex_graph 2 0 /\ depends0 ex_graph 3 0.
 Proof.
   split; [vm_compute; reflexivity|]. split; [discriminate|].
-  split; [apply dep_direct; left; reflexivity|].
-  apply (dep_trans ex_graph 3 2 0); [left; reflexivity|apply dep_direct; left; reflexivity].
+  split; [apply dep0_direct; left; reflexivity|].
+  apply (dep0_trans ex_graph 3 2 0); [left; reflexivity|apply dep0_direct; left; reflexivity].
 Qed.
 
 (* with -k2 the independent command 1 is still started after the failure of 0, the dependent 2 is not *)
 Example C05_keep_going_example :
-  is_some (run ex_graph (mkConfig 2 2 None) ex_prio ex_snap
+  is_some (run ex_graph (mkConfig 2 2 None) no_loads ex_prio ex_snap
              [EvStart 0 ex_prio; EvWait; EvFinish 0 7 ex_prio; EvStart 1 ex_prio; EvWait; EvFinish 1 0 ex_prio;
               EvExit 7 MCannotProgress]) = true /\
-  is_some (run ex_graph (mkConfig 2 2 None) ex_prio ex_snap
+  is_some (run ex_graph (mkConfig 2 2 None) no_loads ex_prio ex_snap
              [EvStart 0 ex_prio; EvWait; EvFinish 0 7 ex_prio; EvStart 1 ex_prio; EvWait; EvFinish 1 0 ex_prio;
               EvStart 2 ex_prio]) = false.
 Proof. split; vm_compute; reflexivity. Qed.
 
 Example C05_exit_code_nonvacuous :
-  is_some (run ex_graph ex_cfg ex_prio ex_snap (firstn 3 ex_trace_fail ++ [EvExit 7 MSubcommandFailed])) = true /\
+  is_some (run ex_graph ex_cfg no_loads ex_prio ex_snap (firstn 3 ex_trace_fail ++ [EvExit 7 MSubcommandFailed])) = true /\
   (exists e c pr, In (EvFinish e c pr) (firstn 3 ex_trace_fail) /\ c <> 0) /\
   exit_track 0 (firstn 3 ex_trace_fail) = 7.
 Proof.
@@ -94,7 +106,7 @@ Qed.
 
 (* two independent commands, -j2 -k1: 0 fails while 1 is still running; nothing can be started,
    the loop waits for 1 and accepts its completion *)
-Definition ex2_graph : graph := mkGraph [mkEdge [] [] 0 false; mkEdge [] [] 0 false] [].
+Definition ex2_graph : graph := mkGraph [mkEdge [] [] 0 false None []; mkEdge [] [] 0 false None []] [].
 Definition ex2_snap : snapshot := mkSnap (fun e => if e <? 2 then Some WToStart else None) (fun _ => false) 2 2.
 Lemma ex2_wf_graph : wf_graph ex2_graph (fun e => e).
 Proof. apply wf_graph_b_sound. vm_compute. reflexivity. Qed.
@@ -105,12 +117,31 @@ Proof.
 Qed.
 
 Example C05_budget_drain_nonvacuous :
-  exists s, reachable ex2_graph ex_cfg s /\ s_fa s = 0 /\ s_phase s = PhBuild /\
+  exists s, reachable ex2_graph ex_cfg no_loads s /\ s_fa s = 0 /\ s_phase s = PhBuild /\
             s_waiting s = false /\ s_running s = [1] /\ can_start ex_cfg s = false /\
-            is_some (accepts ex2_graph ex_cfg s [EvWait; EvFinish 1 0 []; EvExit 7 MSubcommandFailed]) = true.
+            is_some (accepts ex2_graph ex_cfg no_loads s [EvWait; EvFinish 1 0 []; EvExit 7 MSubcommandFailed]) = true.
 Proof.
-  destruct (is_some_run ex2_graph ex_cfg [] ex2_snap [EvStart 0 []; EvStart 1 []; EvWait; EvFinish 0 7 []]) as [s Hs];
+  destruct (is_some_run ex2_graph ex_cfg no_loads [] ex2_snap [EvStart 0 []; EvStart 1 []; EvWait; EvFinish 0 7 []]) as [s Hs];
     [vm_compute; reflexivity|].
-  exists s. split; [apply (run_reachable _ _ _ _ _ _ ex2_wf_snap Hs)|].
+  exists s. split; [apply (run_reachable _ _ _ _ _ _ _ ex2_wf_snap Hs)|].
   vm_compute in Hs. injection Hs as <-. vm_compute. repeat split; reflexivity.
+Qed.
+
+(* a dependency discovered by a dyndep load counts: in [dd_graph] (PlanDefs.v) command 2 learns from the
+   dyndep file produced by 0 that it needs an output of 1; 1 fails afterwards (-k2): 2 is not started *)
+Example C05_dyndep_dependent_nonvacuous :
+  exists s3, run dd_graph (mkConfig 3 2 None) dd_loads [] dd_snap
+               ([EvStart 1 []; EvStart 0 []; EvWait; EvFinish 0 0 []; EvWait] ++ EvFinish 1 7 [] :: []) = Some s3 /\
+             depends dd_graph (s_plan s3) 2 1 /\ ~ depends0 dd_graph 2 1 /\
+             step dd_graph (mkConfig 3 2 None) dd_loads s3 (EvStart 2 []) = None.
+Proof.
+  destruct (is_some_run dd_graph (mkConfig 3 2 None) dd_loads [] dd_snap
+              ([EvStart 1 []; EvStart 0 []; EvWait; EvFinish 0 0 []; EvWait] ++ EvFinish 1 7 [] :: [])) as [s3 Hs];
+    [vm_compute; reflexivity|].
+  exists s3. split; [exact Hs|]. vm_compute in Hs. injection Hs as <-.
+  split; [apply dep_direct; vm_compute; right; left; reflexivity|].
+  split; [|vm_compute; reflexivity].
+  intros H. inversion H as [d e Hin|d i e Hin Hd]; subst.
+  - vm_compute in Hin. destruct Hin as [Hin|[]]. discriminate.
+  - vm_compute in Hin. destruct Hin as [Hin|[]]. subst i. inversion Hd as [d e Hin'|d i e Hin' Hd']; subst; vm_compute in Hin'; destruct Hin'.
 Qed.
